@@ -61,6 +61,12 @@ TOpenPrefix ==
   /\ IF CrashOutcome(alen, E.n) = "err"
      THEN /\ E.d = "err" /\ E.a \in {"err", "ok"} /\ E.readable = 0 /\ ~E.huge
      ELSE /\ E.a = "ok" /\ E.d = "ok" /\ E.samples > 0 /\ E.readable = E.samples
+\* a run of consecutive crash states lo..hi that were all refused with an error value by both opens (compact form of
+\* open_prefix for large archives): every one of them must be a strict prefix
+TOpenRange ==
+  /\ IsEvent("open_range") /\ UNCHANGED <<vars, alen>>
+  /\ E.len = alen /\ E.lo \in 0..alen /\ E.hi \in E.lo..alen
+  /\ \A n \in {E.lo, E.hi} : CrashOutcome(alen, n) = "err"        \* CrashOutcome is monotone in n: the end points decide the range
 \* the command line on a crash state: non-zero exit, no panic
 TCliPrefix ==
   /\ IsEvent("cli_prefix") /\ UNCHANGED <<vars, alen>>
@@ -74,7 +80,7 @@ TFault ==
      ELSE E.result = "ok" /\ E.exit = 0 /\ E.complete /\ E.opens
 
 TNext == TStart \/ TReg \/ TAdd \/ TBuf \/ TFlush \/ TRaw \/ TClose \/ TOpen \/ TGet \/ TGetId
-         \/ TVarint \/ TArchive \/ TOpenPrefix \/ TCliPrefix \/ TFault
+         \/ TVarint \/ TArchive \/ TOpenPrefix \/ TOpenRange \/ TCliPrefix \/ TFault
 TInit == Init /\ l = 1 /\ alen = 0
 TSpec == TInit /\ [][TNext]_tvars
 
